@@ -1,4 +1,6 @@
 """C14 — Page tokens round-trip, malformed tokens are refused, limits are clamped."""
+import re
+
 import z3
 
 from mirsym import mir
@@ -35,7 +37,8 @@ class TokenIn:
 
     def wf(self):
         q = z3.UDiv(self.len, z3.BitVecVal(4, 64)) * 3
-        return [z3.ULT(self.len, 1 << 40), z3.ULE(self.declen, q), z3.UGE(self.declen + 2, q)]
+        # zero decoded bytes are not a JSON document
+        return [z3.ULT(self.len, 1 << 40), z3.ULE(self.declen, q), z3.UGE(self.declen + 2, q), z3.Implies(self.declen == 0, z3.Not(self.parses))]
 
 
 def engine_name(e):
@@ -45,6 +48,7 @@ def engine_name(e):
 
 
 class Env:
+    issue_engine = None      # name of the base64 engine constant serialize_page_token encodes with
     json_len = None          # symbolic length of the JSON rendering in this harness
     to_vec_fails = None
 
@@ -62,6 +66,7 @@ def b64_len(n):
 def m_encode(ex, args, callee):
     payload = dv(args[1])
     if not isinstance(payload, JsonBytes): raise Unsupported(f'encode of {payload!r}')
+    Env.issue_engine = engine_name(args[0])
     return B64Text(engine_name(args[0]), payload, b64_len(payload.len))
 
 
@@ -78,9 +83,17 @@ def m_decode(ex, args, callee):
     raise Unsupported(f'decode of {t!r}')
 
 
+WIDE = z3.Bool('selector_has_a_128bit_integer_outside_the_64bit_range')
+
+
 def m_from_slice(ex, args, callee):
     b = dv(args[0])
-    if isinstance(b, JsonBytes): return ex.ok(b.value)              # parse(json(v)) = Ok(v)
+    if isinstance(b, JsonBytes):
+        if re.search(r'SerializedToken<(serde_json::)?Value>', callee):
+            # parsed into the untyped serde_json::Value tree first: the selector is only a description of the JSON text
+            tokv = b.value
+            return ex.ok(ex.mk_struct('SerializedToken', v=ex.field(tokv, 'v').v, page_start=Opaque('json-value-of', ex.field(tokv, 'page_start').v)))
+        return ex.ok(b.value)              # parse(json(v)) = Ok(v)
     if isinstance(b, Opaque) and b.tag == 'decoded':
         t = b.payload
         if ex.truth(t.parses):
@@ -91,6 +104,16 @@ def m_from_slice(ex, args, callee):
             return ex.ok(ex.mk_struct('SerializedToken', v=ex.mk_enum('PaginationVersion', 'V1'), page_start=Opaque('garbled-selector')))
         return ex.err(Opaque('serde_json::Error'))
     raise Unsupported(f'from_slice of {b!r}')
+
+
+def m_from_value(ex, args, callee):
+    """serde_json::from_value(to_value-like tree of x) = Ok(x) unless x holds a number serde_json::Value cannot represent exactly:
+    without the arbitrary_precision feature (not enabled in this workspace) that is a 128-bit integer outside the 64-bit range"""
+    v = dv(args[0])
+    if isinstance(v, Opaque) and v.tag == 'json-value-of':
+        if ex.truth(WIDE): return ex.err(Opaque('serde_json::Error'))
+        return ex.ok(v.payload)
+    raise Unsupported(f'from_value of {v!r}')
 
 
 def m_len(ex, args, callee):
@@ -106,7 +129,9 @@ MODELS = [
     (r'<GeneralPurpose as Engine>::encode::', m_encode),
     (r'<GeneralPurpose as Engine>::decode::', m_decode),
     (r'^(serde_json::)?from_slice::', m_from_slice),
+    (r'^(serde_json::)?from_value::', m_from_value),
     (r'^String::len$|<impl str>::len$|Vec::<u8>::len$', m_len),
+    (r'^String::is_empty$|<impl str>::is_empty$|Vec::<u8>::is_empty$', lambda ex, a, c: m_len(ex, a, c) == 0),
     (r'<impl str>::as_bytes$|String::as_bytes$|<Vec<u8> as Deref>::deref$|String as Deref>::deref$', lambda ex, a, c: dv(a[0])),
     (r'<D as Deserializer<.*>>::|<D::Error as serde::de::Error>::custom::|as serde::de::Error>::custom::', None),
 ]
@@ -142,6 +167,7 @@ def run(tier, replay_file=None):
     C = setup('C14', tier)
     chk = C['chk']
     part_tokens(C)
+    part_transport(C)
     part_tokens_in(C)
     part_whichpage(C)
     part_results_page(C)
@@ -192,6 +218,49 @@ def part_tokens(C):
         report_token(chk, m, n, f'an issued token is not accepted back as the same selector (got {back})')
     if not n_ok: raise Inconclusive('vacuity: no successful token issue')
 
+
+
+def engine_alphabet(name):
+    """the 64 characters of the alphabet behind a base64 engine constant, read from the sources (dropshot's own constant or the base64 crate's)"""
+    import glob, os, re
+    from mirsym.runner import REPO
+    ver = re.search(r'name = "base64"\nversion = "([^"]+)"', open(os.path.join(REPO, 'Cargo.lock')).read()).group(1)
+    crate = glob.glob(os.path.expanduser(f'~/.cargo/registry/src/*/base64-{ver}/src'))[0]
+    alpha = None
+    for path in glob.glob(os.path.join(REPO, 'dropshot/src/**/*.rs'), recursive=True) + [os.path.join(crate, 'engine/general_purpose/mod.rs')]:
+        m = re.search(r'const\s+' + re.escape(name) + r'\s*:\s*[\w:]*GeneralPurpose\s*=\s*[\w:]*GeneralPurpose::new\(\s*&\s*([\w:]+)', open(path).read())
+        if m: alpha = m.group(1).split('::')[-1]; break
+    if alpha is None: raise Inconclusive(f'cannot resolve the alphabet of base64 engine {name}')
+    m = re.search(r'pub const ' + alpha + r': Alphabet = Alphabet::from_str_unchecked\(\s*"([^"]{64})"', open(os.path.join(crate, 'alphabet.rs')).read())
+    if not m: raise Inconclusive(f'cannot read base64 alphabet {alpha}')
+    return alpha, m.group(1)
+
+
+def part_transport(C):
+    """an issued token is pasted into a query string as it is (dropshot's documentation, examples and tests do): every character the
+    encoder can emit must come back unchanged from query-string decoding (form_urlencoded: `+` -> space, `%xx` -> byte, `&` `#` delimit)"""
+    chk = C['chk']
+    if Env.issue_engine is None: raise Inconclusive('token transport: no token was issued')
+    alpha, chars = engine_alphabet(Env.issue_engine)
+    i = z3.BitVec('sextet', 6)
+    out = z3.BitVecVal(ord(chars[63]), 8)
+    for k in range(62, -1, -1): out = z3.If(i == k, z3.BitVecVal(ord(chars[k]), 8), out)
+    m = chk.prove(f'transport/every-token-character-survives-the-query-string', [], z3.Or([out == ord(c) for c in '+%&# ']))
+    chk.notes.append(f'page tokens are issued with base64 engine {Env.issue_engine} (alphabet {alpha})')
+    if m is None: return
+    bad = chr(m.eval(out, model_completion=True).as_long())
+    # a selector whose token contains that character
+    import base64, itertools, json as J
+    std = 'ABCDEFGHIJKLMNOPQRSTUVWXYZabcdefghijklmnopqrstuvwxyz0123456789+/'
+    names = []
+    for name in (''.join(t) for n_ in (1, 2, 3, 4) for t in itertools.product('a~>?z', repeat=n_)):
+        tok = base64.b64encode(J.dumps({'v': 'v1', 'page_start': {'name': name}}, separators=(',', ':')).encode()).decode().translate(str.maketrans(std, chars))
+        if bad in tok.rstrip('='): names.append(name)
+        if len(names) >= 3: break
+    case = {'op': 'token_transport', 'names': ['first'] + names + ['last'], 'limit': 1}
+    nat = replay([case])[0]
+    chk.counterexample(f'tokens are encoded with {Env.issue_engine} ({alpha} alphabet) which can emit {bad!r}; following the tokens of a collection named '
+                       f'{case["names"]} with page size 1 -> {str(nat)[:400]}', case, not nat.get('as_specified', False), role='transport')
 
 
 def part_tokens_in(C):
@@ -246,9 +315,9 @@ def part_whichpage(C):
                 if r.discr == 0:
                     wp = ex.payload(r)
                     good = ex.variant_name(wp) == 'Next' and ex.payload(wp) is tk.selector and not occurs(wp, other.term)
-                    m = chk.prove(f'whichpage/{shape}/token-alone-determines-page', pc, z3.Or(z3.BoolVal(not good), z3.Not(wf)))
+                    m = chk.prove(f'whichpage/{shape}/token-alone-determines-page', pc, z3.Or(z3.BoolVal(not good), z3.Not(wf)), extra=tk.wf())
                 else:
-                    m = chk.prove(f'whichpage/{shape}/error-only-for-bad-token', pc, wf)
+                    m = chk.prove(f'whichpage/{shape}/error-only-for-bad-token', pc, wf, extra=tk.wf())
                 if m is not None: report_whichpage(chk, m, shape, tk, f'page_token present ({shape}) but result is {r}')
             else:
                 if r.discr == 0:
@@ -336,6 +405,11 @@ def report_token(chk, m, n, what):
     if L > 4096:
         chk.mismatches.append(f'model not replayable (selector JSON length {L}): {what}'); return
     case = {'op': 'page_token', 'json_len': L}
+    if bool(m.eval(WIDE, model_completion=True)) and 4 * ((L + 2) // 3) <= 512:
+        case = {'op': 'wide_token'}
+        nat = replay([case])[0]
+        chk.counterexample(f'{what}: selector holding 128-bit integers beyond the 64-bit range -> native {nat}', case, not nat.get('roundtrip_all', False), role='token:wide')
+        return
     nat = replay([case])[0]
     fits = 4 * ((L + 2) // 3) <= 512
     if fits: bad = not nat.get('issued') or not nat.get('roundtrip_all') or nat.get('token_len', 0) > 512
@@ -361,6 +435,21 @@ def report_token_in(chk, m, t, what):
 def report_whichpage(chk, m, shape, tk, what):
     L = cv(m, tk.len)
     case = {'op': 'whichpage', 'shape': shape, 'len': min(L, 600)}
+    ev = lambda t: bool(m.eval(t, model_completion=True))
+    if 'token' in shape:
+        # the token text the model describes: well-formed -> a token the server issued itself; otherwise the described kind of garbage
+        wf = L <= 512 and ev(tk.decodes) and ev(tk.parses)
+        if not wf:
+            import base64
+            if L == 0: text = ''
+            elif not ev(tk.decodes): text = ('!' * min(max(L, 1), 600))
+            elif L > 512: text = base64.urlsafe_b64encode(b'{"v":"v1","page_start":{"s":"' + b'a' * 400 + b'"}}').decode()
+            else: text = base64.urlsafe_b64encode(b'{' * max(1, min(L, 512) * 3 // 4)).decode()
+            case['token_text'] = text
+        nat = replay([case])[0]
+        bad = not nat.get('as_specified', False) if wf else not (400 <= nat.get('status', 0) <= 499)
+        chk.counterexample(f'{what} -> native {nat}', case, bad, role='whichpage:' + shape)
+        return
     nat = replay([case])[0]
     bad = not nat.get('as_specified', False)
     chk.counterexample(f'{what} -> native {nat}', case, bad, role='whichpage:' + shape)
@@ -398,6 +487,11 @@ def witnesses(chk):
         else: good = not r.get('issued') and 500 <= r.get('issue_status', 0) <= 599
         if not good: chk.counterexample(f'selector with JSON length {L}: native {r}', c, True, role='token')
         if len(chk.samples) < 4: chk.samples.append({'case': c, 'native': r})
+    for c in ({'op': 'wide_token'}, {'op': 'token_transport', 'names': ['a~', 'ab~', 'abc~', 'b>', 'bb>', '?', '??', 'zz'], 'limit': 1},
+              {'op': 'token_transport', 'names': ['a~', 'ab~', 'abc~', 'b>', 'bb>', '?', '??', 'zz'], 'limit': 3}):
+        r = replay([c])[0]
+        chk.replayed += 1
+        if not (r.get('roundtrip_all') or r.get('as_specified')): chk.counterexample(f'{c}: native {str(r)[:400]}', c, True, role='token:' + c['op'])
     cases = [{'op': 'token_in', 'len': L, 'decodes': d, 'parses': p} for (L, d, p) in
              [(512, True, True), (516, True, True), (600, True, True), (684, True, True), (100, False, False), (100, True, False), (8, True, False), (513, False, False)]]
     res = replay(cases)
